@@ -18,16 +18,22 @@ class MermaidNetwork:
     def __dict_to_style(d: dict) -> str:
         return ','.join([f'{k}:{v}' for k, v in d.items()])
 
+    @staticmethod
+    def __label(text: str) -> str:
+        """Node text as a quoted string. A double quote would end the string, '#' starts an entity code
+        and a leading backtick starts a markdown string: they are written as Mermaid entity codes (#34;)"""
+        return '"' + ''.join(f'#{ord(c)};' if c in '"#`' else c for c in text) + '"'
+
     def __src(self):
 
         res = "flowchart LR\n"
         for t in self.wbs.tasks:
-            t_name = t.name.replace('"', '')
+            t_name = self.__label(t.name)
             if len(t.predecessors) == 0:
                 res += f"  0((Start)) --> {t.id}{{{{{t_name}}}}}\n"
             else:
                 for p in t.predecessors:
-                    p_name = p.name.replace('"', '')
+                    p_name = self.__label(p.name)
                     res += f"  {p.id}{{{{{p_name}}}}} --> {t.id}{{{{{t_name}}}}}\n"
 
         for t in self.wbs.tasks:
